@@ -44,6 +44,21 @@ Definition frame (s s' : st) : Prop :=
   (forall q, fr_file (gref s' q) = fr_file (gref s q) /\ fr_parent (gref s' q) = fr_parent (gref s q) /\
              liveb s' q = liveb s q).
 
+(** the rest of what the traversal leaves alone (kept apart from [frame], which is all the call list needs) *)
+Definition frame2 (s s' : st) : Prop :=
+  s_nodes B s' = s_nodes B s /\ length (s_refs B s') = length (s_refs B s) /\ s_nexth B s' = s_nexth B s /\
+  (forall q, fr_with_refs (gref s' q) 0 = fr_with_refs (gref s q) 0) /\
+  (forall q, (fr_refs (gref s q) <= fr_refs (gref s' q))%Z /\ ((0 < fr_refs (gref s' q))%Z -> (0 < fr_refs (gref s q))%Z)).
+
+Lemma frame2_refl s : frame2 s s.
+Proof. repeat split; auto; lia. Qed.
+Lemma frame2_trans a b c : frame2 a b -> frame2 b c -> frame2 a c.
+Proof.
+  intros (A1 & A2 & A3 & A4 & A5) (B1 & B2 & B3 & B4 & B5). repeat split; try congruence.
+  - destruct (A5 q), (B5 q). lia.
+  - intros H. apply A5. apply B5. exact H.
+Qed.
+
 Lemma frame_refl s : frame s s. Proof. split; auto. Qed.
 Lemma frame_trans a b c : frame a b -> frame b c -> frame a c.
 Proof.
@@ -70,18 +85,20 @@ Proof. induction l as [|a l IH]; cbn; auto. rewrite flat_map_app, IH. reflexivit
 Lemma flat_map_map {A0 B0 C0} (h : A0 -> B0) (g : B0 -> list C0) l : flat_map g (map h l) = flat_map (fun x => g (h x)) l.
 Proof. induction l as [|a l IH]; cbn; auto. rewrite IH. reflexivity. Qed.
 
+Definition stepb (b : B) (c : bcall) : B := fst (bstep b c).
+
 Definition Tr (X : list bcall) (hs hs' : list nat * st) : Prop :=
-  calls (snd hs') = calls (snd hs) ++ X /\ frame (snd hs) (snd hs').
+  (calls (snd hs') = calls (snd hs) ++ X /\ s_be B (snd hs') = fold_left stepb X (s_be B (snd hs))) /\ frame (snd hs) (snd hs').
 
 Lemma Tr_fold {A} (f : A -> list nat * st -> list nat * st) (T : A -> list bcall) (s0 : st) (l : list A) :
   (forall a hs, In a l -> frame s0 (snd hs) -> Tr (T a) hs (f a hs)) ->
   forall hs, frame s0 (snd hs) -> Tr (flat_map T l) hs (fold_left (fun st a => f a st) l hs).
 Proof.
   induction l as [|a l IH]; intros H hs F; cbn [fold_left flat_map].
-  - split; [rewrite app_nil_r; reflexivity | apply frame_refl].
-  - destruct (H a hs (or_introl eq_refl) F) as (C1 & F1).
-    destruct (IH (fun a' hs' Hin => H a' hs' (or_intror Hin)) (f a hs) (frame_trans _ _ _ F F1)) as (C2 & F2).
-    split; [rewrite C2, C1, app_assoc; reflexivity | eapply frame_trans; eauto].
+  - split; [split; [rewrite app_nil_r; reflexivity | reflexivity] | apply frame_refl].
+  - destruct (H a hs (or_introl eq_refl) F) as ((C1 & B1) & F1).
+    destruct (IH (fun a' hs' Hin => H a' hs' (or_intror Hin)) (f a hs) (frame_trans _ _ _ F F1)) as ((C2 & B2) & F2).
+    split; [split; [rewrite C2, C1, app_assoc; reflexivity | rewrite B2, B1, fold_left_app; reflexivity] | eapply frame_trans; eauto].
 Qed.
 
 Lemma gref_set r x (s : st) q : gref (set_ref B r x s) q = if (q =? r) && (r <? length (s_refs B s)) then x else gref s q.
@@ -97,7 +114,7 @@ Lemma renamed_call_tr r nm hs : Tr (tell (snd hs) (r, nm)) hs (renamed_call B bs
 Proof.
   destruct hs as [held s]. unfold renamed_call, try_incref, tell, liveb. cbn [fst snd].
   destruct (fr_refs (gref s r) <=? 0)%Z eqn:E; cbn [negb].
-  - split; [rewrite app_nil_r; reflexivity | apply frame_refl].
+  - split; [split; [rewrite app_nil_r; reflexivity | reflexivity] | apply frame_refl].
   - set (s1 := incref B r s). set (s2 := with_held B (r :: s_held B s1) s1).
     assert (F2 : frame s s2).
     { split; [reflexivity|]. intros q.
@@ -110,17 +127,18 @@ Proof.
     destruct F2 as (N2 & R2). destruct (R2 r) as (Ef & Ep & _). rewrite Ep.
     destruct (fr_parent (gref s r)) as [p|]; cbn [snd].
     + destruct (R2 p) as (Efp & _). rewrite Ef, Efp.
-      unfold bcall_. destruct (bstep (s_be B s2) _) as [b' a]. cbn [snd]. split.
-      * unfold calls. cbn. reflexivity.
+      unfold Tr, bcall_. cbn [fold_left snd]. unfold stepb. change (s_be B s) with (s_be B s2).
+      destruct (bstep (s_be B s2) _) as [b' a]. cbn [snd fst]. split.
+      * split; [unfold calls; cbn; reflexivity | reflexivity].
       * split; [exact N2 | exact R2].
-    + split; [unfold calls; cbn; rewrite app_nil_r; reflexivity | split; [exact N2 | exact R2]].
+    + split; [split; [unfold calls; cbn; rewrite app_nil_r; reflexivity | reflexivity] | split; [exact N2 | exact R2]].
 Qed.
 
 Theorem notify_name_change_tr fuel : forall n hs,
   Tr (flat_map (tell (snd hs)) (below fuel (snd hs) n)) hs (notify_name_change B bstep fuel n hs).
 Proof.
   induction fuel as [|f IH]; intros n hs; cbn [notify_name_change below].
-  - cbn. split; [rewrite app_nil_r; reflexivity | split; auto].
+  - cbn. split; [split; [rewrite app_nil_r; reflexivity | reflexivity] | split; auto].
   - set (s0 := snd hs). set (pn := gnode s0 n). rewrite flat_map_app.
     (* the node's own references *)
     assert (P1 : Tr (flat_map (tell s0) (regs_of pn)) hs
@@ -131,7 +149,7 @@ Proof.
       intros e hs1 _ F1. rewrite flat_map_map.
       apply (Tr_fold (fun r st' => renamed_call B bstep r (fst e) st') (fun r => tell s0 (r, fst e)) s0); auto.
       intros r hs2 _ F2. rewrite <- (tell_frame s0 (snd hs2)) by auto. apply renamed_call_tr. }
-    set (hs1 := fold_left _ (pn_refs pn) hs) in *. destruct P1 as (C1 & F1).
+    set (hs1 := fold_left _ (pn_refs pn) hs) in *. destruct P1 as ((C1 & B1) & F1).
     (* the child nodes *)
     assert (P2 : Tr (flat_map (fun c => flat_map (tell s0) (below f s0 (snd c))) (pn_nodes pn)) hs1
                (fold_left (fun st c => notify_name_change B bstep f (snd c) st) (pn_nodes pn) hs1)).
@@ -140,8 +158,48 @@ Proof.
       intros c hs2 _ F2. specialize (IH (snd c) hs2).
       rewrite (below_frame f s0 (snd hs2)) in IH by auto.
       rewrite (flat_map_ext _ _ (fun e => tell_frame s0 (snd hs2) e F2)) in IH. exact IH. }
-    destruct P2 as (C2 & F2). split; [|eapply frame_trans; eauto].
-    rewrite C2, C1, <- app_assoc. f_equal. f_equal. rewrite flat_map_flat_map. reflexivity.
+    destruct P2 as ((C2 & B2) & F2). split; [|eapply frame_trans; eauto].
+    assert (EQ : flat_map (fun c => flat_map (tell s0) (below f s0 (snd c))) (pn_nodes pn) =
+                 flat_map (tell s0) (flat_map (fun c => below f s0 (snd c)) (pn_nodes pn))) by (rewrite flat_map_flat_map; reflexivity).
+    split; [rewrite C2, C1, <- app_assoc, EQ; reflexivity | rewrite B2, B1, fold_left_app, EQ; reflexivity].
+Qed.
+
+Lemma frame2_fold {A} (f : A -> list nat * st -> list nat * st) (l : list A) :
+  (forall a hs, frame2 (snd hs) (snd (f a hs))) -> forall hs, frame2 (snd hs) (snd (fold_left (fun st a => f a st) l hs)).
+Proof.
+  intros H. induction l as [|a l IH]; intros hs; cbn [fold_left]; [apply frame2_refl|].
+  eapply frame2_trans; [apply H | apply IH].
+Qed.
+
+Lemma frame2_same s s' : s_nodes B s' = s_nodes B s -> s_refs B s' = s_refs B s -> s_nexth B s' = s_nexth B s -> frame2 s s'.
+Proof.
+  intros N R H. unfold frame2, get_ref. rewrite N, R, H. repeat split; auto; lia.
+Qed.
+
+Lemma renamed_call_frame2 r nm hs : frame2 (snd hs) (snd (renamed_call B bstep r nm hs)).
+Proof.
+  destruct hs as [held s]. unfold renamed_call, try_incref. cbn [fst snd].
+  destruct (Z.leb_spec (fr_refs (gref s r)) 0) as [Le|Gt]; cbn [snd]; [apply frame2_refl|].
+  set (s1 := incref B r s). set (s2 := with_held B (r :: s_held B s1) s1).
+  assert (F2 : frame2 s s2).
+  { split; [reflexivity|]. split; [unfold s2, s1, incref, set_ref; cbn; apply upd_length|]. split; [reflexivity|].
+    assert (GQ : forall q, gref s2 q = if (q =? r) && (r <? length (s_refs B s)) then fr_with_refs (gref s r) (fr_refs (gref s r) + 1) else gref s q).
+    { intros q. change (gref s2 q) with (gref s1 q). unfold s1, incref. apply gref_set. }
+    split; intros q; rewrite GQ; destruct ((q =? r) && (r <? length (s_refs B s))) eqn:X; auto; try (split; [lia | auto]).
+    - apply andb_prop in X. destruct X as (X & _). apply Nat.eqb_eq in X. subst q. reflexivity.
+    - apply andb_prop in X. destruct X as (X & _). apply Nat.eqb_eq in X. subst q. cbn. split; [lia | auto]. }
+  eapply frame2_trans; [exact F2|].
+  destruct (fr_parent (gref s2 r)); [|apply frame2_same; reflexivity].
+  unfold bcall_. destruct (bstep (s_be B s2) _) as [b' a]. cbn [snd]. apply frame2_same; reflexivity.
+Qed.
+
+Lemma notify_name_change_frame2 fuel : forall n hs, frame2 (snd hs) (snd (notify_name_change B bstep fuel n hs)).
+Proof.
+  induction fuel as [|f IH]; intros n hs; cbn [notify_name_change]; [cbn [snd]; apply frame2_same; reflexivity|].
+  eapply frame2_trans.
+  - apply (frame2_fold (fun e st => fold_left (fun st' r => renamed_call B bstep r (fst e) st') (snd e) st)).
+    intros e hs1. apply (frame2_fold (fun r st' => renamed_call B bstep r (fst e) st')). intros r hs2. apply renamed_call_frame2.
+  - apply (frame2_fold (fun c st => notify_name_change B bstep f (snd c) st)). intros c hs1. apply IH.
 Qed.
 
 (** which pairs [below] lists: the registrations of the nodes at most fuel-1 childNodes-edges below n *)
@@ -181,5 +239,10 @@ Qed.
 Theorem notified_below fuel n held (s : st) :
   let s' := snd (notify_name_change B bstep fuel n (held, s)) in
   calls s' = calls s ++ flat_map (tell s) (below fuel s n) /\ frame s s'.
-Proof. apply (notify_name_change_tr fuel n (held, s)). Qed.
+Proof. destruct (notify_name_change_tr fuel n (held, s)) as ((C1 & _) & F). split; auto. Qed.
+
+(** ... and the backend state afterwards is the replay of exactly these calls *)
+Theorem notified_below_be fuel n held (s : st) :
+  s_be B (snd (notify_name_change B bstep fuel n (held, s))) = fold_left stepb (flat_map (tell s) (below fuel s n)) (s_be B s).
+Proof. destruct (notify_name_change_tr fuel n (held, s)) as ((_ & B1) & _). exact B1. Qed.
 End Deep.
